@@ -134,3 +134,180 @@ Qed.
 
 Lemma gparse_bounds t r n h : gparse t r = Ok (n, h) -> 1 <= n <= len r.
 Proof. apply gp_bounds. Qed.
+
+(* ---------- small list facts ---------- *)
+Lemma drop_length {A} n (l : list A) : length (drop n l) = (length l - N.to_nat n)%nat.
+Proof. unfold drop. apply skipn_length. Qed.
+
+Lemma drop_app_le {A} n (p s : list A) : n <= len p -> drop n (p ++ s) = drop n p ++ s.
+Proof.
+  unfold drop, len. intros H. rewrite skipn_app.
+  replace (N.to_nat n - length p)%nat with O by lia. reflexivity.
+Qed.
+
+Lemma take_app_le {A} n (p s : list A) : n <= len p -> take n (p ++ s) = take n p.
+Proof.
+  unfold take, len. intros H. rewrite firstn_app.
+  replace (N.to_nat n - length p)%nat with O by lia. cbn [firstn]. apply app_nil_r.
+Qed.
+
+Lemma len_length {A} (l : list A) : len l = N.of_nat (length l).
+Proof. reflexivity. Qed.
+
+(* ---------- fuel: any fuel above the input length gives the same result ---------- *)
+Lemma gpair_ext e1 e2 e1' e2' r :
+  e1 r = e1' r -> (forall n, e2 (drop n r) = e2' (drop n r)) -> gpair e1 e2 r = gpair e1' e2' r.
+Proof.
+  intros H1 H2. unfold gpair. rewrite H1. destruct (e1' r) as [[n h]| | |]; cbn [bind]; try reflexivity.
+  now rewrite H2.
+Qed.
+
+Lemma gelems_fuel ea eb : bounded ea ->
+  forall fa fb cnt r, (length r < fa)%nat -> (length r < fb)%nat ->
+  (forall r', (length r' <= length r)%nat -> ea r' = eb r') ->
+  gelems fa ea cnt r = gelems fb eb cnt r.
+Proof.
+  intros Ba. induction fa as [|fa IH]; intros fb cnt r Ha Hb He; [lia|].
+  destruct fb as [|fb]; [lia|]. cbn [gelems].
+  destruct (cnt =? 0); [reflexivity|].
+  rewrite <- (He r) by lia.
+  destruct (ea r) as [[n h]| | |] eqn:E; cbn [bind]; try reflexivity.
+  apply Ba in E.
+  assert (Hl : (length (drop n r) < length r)%nat).
+  { rewrite drop_length. unfold len in E. lia. }
+  rewrite (IH fb (N.pred cnt) (drop n r)); [reflexivity|lia|lia|].
+  intros r' Hr'. apply He. lia.
+Qed.
+
+Lemma gfields_fuel ea eb : (forall ft, bounded (ea ft)) ->
+  forall fa fb r, (length r < fa)%nat -> (length r < fb)%nat ->
+  (forall ft r', (length r' < length r)%nat -> ea ft r' = eb ft r') ->
+  gfields fa ea r = gfields fb eb r.
+Proof.
+  intros Ba. induction fa as [|fa IH]; intros fb r Ha Hb He; [lia|].
+  destruct fb as [|fb]; [lia|]. cbn [gfields].
+  destruct r as [|ft r1]; [reflexivity|].
+  destruct (ft =? T_STOP); [reflexivity|].
+  destruct (hasn r1 2) eqn:H2; [|reflexivity]. apply hasn_true in H2.
+  assert (Hd : (length (drop 2 r1) < length (ft :: r1))%nat).
+  { rewrite drop_length. cbn [length]. lia. }
+  rewrite <- (He ft (drop 2 r1)) by exact Hd.
+  destruct (ea ft (drop 2 r1)) as [[n h]| | |] eqn:E; cbn [bind]; try reflexivity.
+  apply Ba in E.
+  assert (Hl : (length (drop n (drop 2 r1)) < length (drop 2 r1))%nat).
+  { rewrite (drop_length n). unfold len in E. lia. }
+  rewrite (IH fb (drop n (drop 2 r1))); [reflexivity|cbn [length] in *; lia|cbn [length] in *; lia|].
+  intros ft' r' Hr'. apply He. lia.
+Qed.
+
+Lemma gp_fuel_irrel : forall f1 f2 t r,
+  (length r < f1)%nat -> (length r < f2)%nat -> gp f1 t r = gp f2 t r.
+Proof.
+  induction f1 as [|a IH]; intros f2 t r H1 H2; [lia|].
+  destruct f2 as [|b]; [lia|]. cbn [gp].
+  destruct (kind_of t) as [w| | | | |]; try reflexivity.
+  - rewrite (gfields_fuel (gp a) (gp b) (gp_bounds a) (S a) (S b) r H1 H2); [reflexivity|].
+    intros ft r' Hr'. apply IH; lia.
+  - destruct r as [|kt [|vt r2]]; try reflexivity.
+    destruct (hasn r2 4) eqn:H4; [|reflexivity].
+    destruct (two31 <=? unbe (take 4 r2)); [reflexivity|].
+    assert (Hd : (length (drop 4 r2) <= length r2)%nat) by (rewrite drop_length; lia).
+    cbn [length] in H1, H2.
+    rewrite (gelems_fuel (gpair (gp a kt) (gp a vt)) (gpair (gp b kt) (gp b vt))
+               (gpair_bounded _ _ (gp_bounds a kt) (gp_bounds a vt)) (S a) (S b)); [reflexivity|lia|lia|].
+    intros r' Hr'. apply gpair_ext.
+    + apply IH; lia.
+    + intros n. apply IH; rewrite drop_length; lia.
+  - destruct r as [|et r1]; try reflexivity.
+    destruct (hasn r1 4) eqn:H4; [|reflexivity].
+    destruct (two31 <=? unbe (take 4 r1)); [reflexivity|].
+    assert (Hd : (length (drop 4 r1) <= length r1)%nat) by (rewrite drop_length; lia).
+    cbn [length] in H1, H2.
+    rewrite (gelems_fuel (gp a et) (gp b et) (gp_bounds a et) (S a) (S b)); [reflexivity|lia|lia|].
+    intros r' Hr'. apply IH; lia.
+Qed.
+
+Lemma gp_gparse f t r : (length r < f)%nat -> gp f t r = gparse t r.
+Proof. intros H. unfold gparse. apply gp_fuel_irrel; lia. Qed.
+
+(* fuel never runs out *)
+Lemma gelems_nofuel elem : bounded elem ->
+  forall f cnt r, (length r < f)%nat ->
+  (forall r', (length r' <= length r)%nat -> elem r' <> Err E_FUEL) ->
+  gelems f elem cnt r <> Err E_FUEL.
+Proof.
+  intros Be. induction f as [|f IH]; intros cnt r Hf Hn; [lia|]. cbn [gelems].
+  destruct (cnt =? 0); [discriminate|].
+  destruct (elem r) as [[n h]|e| |] eqn:E; cbn [bind]; try discriminate.
+  - apply Be in E.
+    assert (Hl : (length (drop n r) < length r)%nat) by (rewrite drop_length; unfold len in E; lia).
+    assert (IH' : gelems f elem (N.pred cnt) (drop n r) <> Err E_FUEL).
+    { apply IH; [lia|]. intros r' Hr'. apply Hn. lia. }
+    destruct (gelems f elem (N.pred cnt) (drop n r)) as [[m h']|e| |]; cbn [bind]; try discriminate.
+    intros H. apply IH'. exact H.
+  - intros H. apply (Hn r); [lia|]. rewrite E. exact H.
+Qed.
+
+Lemma gfields_nofuel elem : (forall ft, bounded (elem ft)) ->
+  forall f r, (length r < f)%nat ->
+  (forall ft r', (length r' < length r)%nat -> elem ft r' <> Err E_FUEL) ->
+  gfields f elem r <> Err E_FUEL.
+Proof.
+  intros Be. induction f as [|f IH]; intros r Hf Hn; [lia|]. cbn [gfields].
+  destruct r as [|ft r1]; [discriminate|].
+  destruct (ft =? T_STOP); [discriminate|].
+  destruct (hasn r1 2) eqn:H2; [|discriminate]. apply hasn_true in H2.
+  assert (Hd : (length (drop 2 r1) < length (ft :: r1))%nat) by (rewrite drop_length; cbn [length]; lia).
+  destruct (elem ft (drop 2 r1)) as [[n h]|e| |] eqn:E; cbn [bind]; try discriminate.
+  - apply Be in E.
+    assert (Hl : (length (drop n (drop 2 r1)) < length (drop 2 r1))%nat).
+    { rewrite (drop_length n). unfold len in E. lia. }
+    assert (IH' : gfields f elem (drop n (drop 2 r1)) <> Err E_FUEL).
+    { apply IH; [cbn [length] in *; lia|]. intros ft' r' Hr'. apply Hn. lia. }
+    destruct (gfields f elem (drop n (drop 2 r1))) as [[m h']|e| |]; cbn [bind]; try discriminate.
+    intros H. apply IH'. exact H.
+  - intros H. apply (Hn ft (drop 2 r1) Hd). rewrite E. exact H.
+Qed.
+
+Lemma gpair_nofuel e1 e2 r : bounded e1 -> e1 r <> Err E_FUEL ->
+  (forall n, 1 <= n -> e2 (drop n r) <> Err E_FUEL) -> gpair e1 e2 r <> Err E_FUEL.
+Proof.
+  intros B1 H1 H2. unfold gpair.
+  destruct (e1 r) as [[n h]|e| |] eqn:E; cbn [bind]; try discriminate; [|congruence].
+  apply B1 in E. specialize (H2 n (proj1 E)).
+  destruct (e2 (drop n r)) as [[m h']|e| |]; cbn [bind]; try discriminate. congruence.
+Qed.
+
+Lemma gp_nofuel : forall f t r, (length r < f)%nat -> gp f t r <> Err E_FUEL.
+Proof.
+  induction f as [|a IH]; intros t r Hf; [lia|]. cbn [gp].
+  destruct (kind_of t) as [w| | | | |]; try discriminate.
+  - destruct (hasn r w); discriminate.
+  - unfold gstring. destruct (hasn r 4); [|discriminate].
+    destruct (two31 <=? unbe (take 4 r)); [discriminate|].
+    destruct (hasn (drop 4 r) (unbe (take 4 r))); discriminate.
+  - assert (H : gfields (S a) (gp a) r <> Err E_FUEL).
+    { apply gfields_nofuel; [apply gp_bounds|lia|]. intros ft r' Hr'. apply IH. lia. }
+    destruct (gfields (S a) (gp a) r) as [[n h]|e| |]; cbn [bind]; try discriminate. congruence.
+  - destruct r as [|kt [|vt r2]]; try discriminate.
+    destruct (hasn r2 4); [|discriminate].
+    destruct (two31 <=? unbe (take 4 r2)); [discriminate|].
+    cbn [length] in Hf.
+    assert (Hd : (length (drop 4 r2) <= length r2)%nat) by (rewrite drop_length; lia).
+    assert (H : gelems (S a) (gpair (gp a kt) (gp a vt)) (unbe (take 4 r2)) (drop 4 r2) <> Err E_FUEL).
+    { apply gelems_nofuel; [apply gpair_bounded; apply gp_bounds|lia|].
+      intros r' Hr'. apply gpair_nofuel; [apply gp_bounds|apply IH; lia|].
+      intros n Hn. apply IH. rewrite drop_length. lia. }
+    destruct (gelems (S a) _ _ _) as [[n h]|e| |]; cbn [bind]; try discriminate. congruence.
+  - destruct r as [|et r1]; try discriminate.
+    destruct (hasn r1 4); [|discriminate].
+    destruct (two31 <=? unbe (take 4 r1)); [discriminate|].
+    cbn [length] in Hf.
+    assert (Hd : (length (drop 4 r1) <= length r1)%nat) by (rewrite drop_length; lia).
+    assert (H : gelems (S a) (gp a et) (unbe (take 4 r1)) (drop 4 r1) <> Err E_FUEL).
+    { apply gelems_nofuel; [apply gp_bounds|lia|]. intros r' Hr'. apply IH. lia. }
+    destruct (gelems (S a) _ _ _) as [[n h]|e| |]; cbn [bind]; try discriminate. congruence.
+Qed.
+
+Lemma gparse_fuel t r : gparse t r <> Err E_FUEL.
+Proof. apply gp_nofuel. lia. Qed.
